@@ -24,6 +24,11 @@
    (7) the pattern-matching `level` functions are the table                         — `level_is_table`
    (8) the same for the entry point ParseExpr (whole input = one expression)         — `top_sound`, `top_complete`
    (9) on lexer output the ladder never reaches its one possible Go runtime panic (`e.Value[0]`) — `no_crash`
+  (10) the words OFFSET / ORDINAL / SAFE_OFFSET / SAFE_ORDINAL are not reserved: inside `[…]` the parser takes one for
+       the position keyword only when `(` follows it directly, and the yield of an expression never starts with an
+       identifier directly followed by `(` (calls are outside the fragment) — so `NF` has NO side condition on the
+       expression of a plain subscript, and (1)/(2)/(3) cover `a[offset]`, `a[ORDINAL * 2]`, `a[offset.f]`
+                                                                                     — `subscript_word_not_call`, `subscript_word_plain`
 -/
 import MF.Proofs.ExprSound
 import MF.Proofs.ExprMono
@@ -102,6 +107,20 @@ theorem no_crash {buf : Bytes} {ts : List Token} (h : Lex.lexAll buf = .ok ts) (
     parseExpr fuel ts ≠ .crash :=
   parseExpr_no_crash_lexed h fuel
 
+/-- (10) no yield of the fragment starts like a call: an identifier directly followed by `(` -/
+theorem subscript_word_not_call (e : Expr) : startsCall (yield e) = false :=
+  yield_not_call e
+
+/-- (10) a plain subscript whose expression is ANY table-grouped normal form — in particular one that starts with a
+column named offset / ordinal / safe_offset / safe_ordinal — is what the parser builds from its yield (an instance of
+(2): `NF (.index a none i)` is just `NF a ∧ NF i`) -/
+theorem subscript_word_plain {a i : Expr} (hpa : PrecOK a) (hna : NF a) (hla : level a ≤ 1) (hpi : PrecOK i) (hni : NF i)
+    {pre rest : List Token} (hr : pre.map proj = yield (.index a none i))
+    (hc : ∀ t ∈ pre, isCastLike t = false) (hf : Follow rest) :
+    ∃ n, ∀ fuel, n ≤ fuel → parseExpr fuel (pre ++ rest) = .ok (.index a none i, rest) :=
+  parseExpr_complete (by simp only [PrecOK, precOK] at hpa hpi ⊢; simp [hpa, hpi, hla])
+    (by simp only [NF, nf] at hna hni ⊢; simp [hna, hni]) hr hc hf
+
 /-! non-vacuity: concrete inputs through the model lexer and the model parser -/
 
 example : exprRun (B "a = b = c") = "ERR" := by decide +kernel
@@ -109,5 +128,28 @@ example : exprRun (B "a - b - c") = "OK (bin - (bin - (ident 61) (ident 62)) (id
   decide +kernel
 example : exprRun (B "a || b * c") = "OK (bin * (bin || (ident 61) (ident 62)) (ident 63)) 61207c7c2062202a2063" := by
   decide +kernel
+
+/-! the repaired subscript: a column named like a position keyword, and the keyword itself -/
+
+example : exprRun (B "a[offset]") = "OK (index (ident 61) (expr (ident 6f6666736574))) 615b6f66667365745d" := by
+  decide +kernel
+example : exprRun (B "a[ORDINAL * 2]") =
+    "OK (index (ident 61) (expr (bin * (ident 4f5244494e414c) (int 32)))) 615b4f5244494e414c202a20325d" := by
+  decide +kernel
+example : exprRun (B "a[offset.f]") = "OK (index (ident 61) (expr (path 6f6666736574 66))) 615b6f66667365742e665d" := by
+  decide +kernel
+example : exprRun (B "a[safe_offset]") =
+    "OK (index (ident 61) (expr (ident 736166655f6f6666736574))) 615b736166655f6f66667365745d" := by
+  decide +kernel
+example : exprRun (B "a[OFFSET(1)]") = "OK (index (ident 61) (OFFSET (int 31))) 615b4f46465345542831295d" := by
+  decide +kernel
+example : exprRun (B "a[offset (1)]") = "OK (index (ident 61) (OFFSET (int 31))) 615b4f46465345542831295d" := by
+  decide +kernel
+/-- a FUNCTION named offset called inside a subscript stays unexpressible (as in GoogleSQL) -/
+example : exprRun (B "a[offset(1) + 1]") = "ERR" := by decide +kernel
+/-- the tree of `a[offset]` is a table-grouped normal form: (2) and (3) apply to it -/
+example : PrecOK (.index (.ident (B "a")) none (.ident (B "offset"))) ∧
+    NF (.index (.ident (B "a")) none (.ident (B "offset"))) ∧
+    startsPosKw (yield (.ident (B "offset"))) = true := by decide
 
 end MF.Props.C07
